@@ -68,20 +68,104 @@ func appendedElem(call *ssa.Call) ssa.Value {
 	return val
 }
 
+// emitHelper describes a one-block helper `func(…, sink, value)` whose whole effect is
+// sink.result = append(sink.result, value).
+type emitHelper struct{ sink, val int }
+
+func emitHelpers(c *engine.Context) map[*ssa.Function]emitHelper {
+	return c.Memo("emitHelpers", func() interface{} {
+		p := c.P
+		out := map[*ssa.Function]emitHelper{}
+		for _, fn := range p.Funcs {
+			if fn.Blocks == nil || len(fn.Blocks) != 1 || !p.InPkg(fn) || fn.Signature.Results().Len() != 0 {
+				continue
+			}
+			sink := sinkParam(p, fn)
+			if sink == nil {
+				continue
+			}
+			sinkIdx, valIdx := -1, -1
+			okShape := true
+			stores := 0
+			for _, ins := range fn.Blocks[0].Instrs {
+				switch x := ins.(type) {
+				case *ssa.Store:
+					stores++
+					if ia, isIA := x.Addr.(*ssa.IndexAddr); isIA {
+						if _, isAl := ia.X.(*ssa.Alloc); isAl {
+							continue // the one-element varargs array of the append
+						}
+					}
+					fa, isFA := x.Addr.(*ssa.FieldAddr)
+					call, isCall := x.Val.(*ssa.Call)
+					if !isFA || fa.X != ssa.Value(sink) || !isCall {
+						okShape = false
+						continue
+					}
+					bi, isB := call.Call.Value.(*ssa.Builtin)
+					if !isB || bi.Name() != "append" {
+						okShape = false
+						continue
+					}
+					if el, isP := appendedElem(call).(*ssa.Parameter); isP {
+						for i, pp := range fn.Params {
+							if pp == el {
+								valIdx = i
+							}
+							if pp == sink {
+								sinkIdx = i
+							}
+						}
+					} else {
+						okShape = false
+					}
+				case *ssa.Call:
+					if _, isB := x.Call.Value.(*ssa.Builtin); !isB {
+						okShape = false
+					}
+				case *ssa.Panic, *ssa.Defer, *ssa.Go, *ssa.MapUpdate:
+					okShape = false
+				}
+			}
+			if okShape && stores == 2 && sinkIdx >= 0 && valIdx >= 0 {
+				// stores: the element into the one-element varargs array, and the appended slice into sink.result
+				out[fn] = emitHelper{sinkIdx, valIdx}
+			}
+		}
+		return out
+	}).(map[*ssa.Function]emitHelper)
+}
+
 func findEmitSites(c *engine.Context) []*emitSite {
 	return c.Memo("emitSites", func() interface{} {
 		p := c.P
+		helpers := emitHelpers(c)
 		var out []*emitSite
 		for _, fn := range evalFuncs(c) {
 			sink := sinkParam(p, fn)
 			if sink == nil {
 				continue
 			}
+			if _, isH := helpers[fn]; isH {
+				continue // its append is accounted for at its call sites
+			}
 			for _, b := range fn.Blocks {
 				for _, ins := range b.Instrs {
 					call, ok := ins.(*ssa.Call)
 					if !ok {
 						continue
+					}
+					if sc := call.Call.StaticCallee(); sc != nil {
+						if h, isH := helpers[sc]; isH && call.Call.Args[h.sink] == ssa.Value(sink) {
+							es := &emitSite{fn: fn, call: call, block: b, value: call.Call.Args[h.val]}
+							for _, dc := range dominatingConds(b) {
+								if _, _, isBool := boolFieldLoad(dc.cond); isBool && es.guard == nil {
+									es.guard, es.onTrue = dc.at, dc.taken
+								}
+							}
+							out = append(out, es)
+							continue
+						}
 					}
 					bi, ok := call.Call.Value.(*ssa.Builtin)
 					if !ok || bi.Name() != "append" {
@@ -566,22 +650,35 @@ type kindSite struct {
 
 func navSetOf(conds []edgeCond, current ssa.Value) (hasMap, hasList bool) {
 	for _, dc := range conds {
-		ex, ok := dc.cond.(*ssa.Extract)
-		if !ok || ex.Index != 1 || dc.taken {
-			continue
+		cond, neg := unwrapNot(dc.cond)
+		x, ts, ok := typeTestsOf(cond)
+		if !ok || x != current || dc.taken != neg {
+			continue // only failed tests say what the node would have navigated into
 		}
-		ta, ok := ex.Tuple.(*ssa.TypeAssert)
-		if !ok || ta.X != current {
-			continue
-		}
-		switch ta.AssertedType.Underlying().(type) {
-		case *types.Map:
-			hasMap = true
-		case *types.Slice:
-			hasList = true
+		for _, t := range ts {
+			switch t.Underlying().(type) {
+			case *types.Map:
+				hasMap = true
+			case *types.Slice:
+				hasList = true
+			}
 		}
 	}
 	return
+}
+
+// testedParam: the parameter whose dynamic type a dominating condition tests.
+func testedParam(conds []edgeCond) ssa.Value {
+	var current ssa.Value
+	for _, dc := range conds {
+		cond, _ := unwrapNot(dc.cond)
+		if x, _, ok := typeTestsOf(cond); ok {
+			if _, isP := x.(*ssa.Parameter); isP {
+				current = x
+			}
+		}
+	}
+	return current
 }
 
 func ruleNKind(c *engine.Context) *report.Rule {
@@ -691,16 +788,7 @@ func ruleNKind(c *engine.Context) *report.Rule {
 				ks := &kindSite{fn: fn, alloc: call}
 				sites = append(sites, ks)
 				conds := dominatingConds(b)
-				var current ssa.Value
-				for _, dc := range conds {
-					if ex, ok := dc.cond.(*ssa.Extract); ok && ex.Index == 1 {
-						if ta, ok := ex.Tuple.(*ssa.TypeAssert); ok {
-							if _, isP := ta.X.(*ssa.Parameter); isP {
-								current = ta.X
-							}
-						}
-					}
-				}
+				current := testedParam(conds)
 				if current == nil {
 					ks.why = append(ks.why, "no failed type test of a parameter dominates the error")
 					continue
@@ -746,17 +834,8 @@ func ruleNKind(c *engine.Context) *report.Rule {
 				ks := &kindSite{fn: fn, alloc: al}
 				sites = append(sites, ks)
 				// current = the parameter that was type-tested
-				var current ssa.Value
 				conds := dominatingConds(b)
-				for _, dc := range conds {
-					if ex, ok := dc.cond.(*ssa.Extract); ok && ex.Index == 1 {
-						if ta, ok := ex.Tuple.(*ssa.TypeAssert); ok {
-							if _, isP := ta.X.(*ssa.Parameter); isP {
-								current = ta.X
-							}
-						}
-					}
-				}
+				current := testedParam(conds)
 				if current == nil {
 					ks.why = append(ks.why, "no failed type test of a parameter dominates the error")
 					continue
@@ -1119,6 +1198,8 @@ func ruleNForward(c *engine.Context) *report.Rule {
 				switch {
 				case isRetrieveInvoke(call):
 					aRoot, aCur, aSink = call.Call.Args[0], call.Call.Args[1], call.Call.Args[2]
+				case call.Call.StaticCallee() != nil && isEmitHelper(c, call.Call.StaticCallee()):
+					continue // an emission, not a step
 				case call.Call.StaticCallee() != nil && c.P.InPkg(call.Call.StaticCallee()) && sinkParam(p, call.Call.StaticCallee()) != nil && call.Call.StaticCallee().Signature.Recv() != nil:
 					// helper of the retrieve family: (recv, root, ..., sink)
 					callee := call.Call.StaticCallee()
@@ -1587,50 +1668,29 @@ func ruleNAccFlag(c *engine.Context) *report.Rule {
 		}
 		r.Instances++
 		covered := false
-		why := "no flag update reaches the nodes stored in this field"
+		why := "no flag update reaches the nodes stored in this field (directly in the pass, or in a helper the pass hands the node to), or only under an extra condition"
+		// the type test of the walk variable to *T inside the loop, then the shared propagation check (N-WALK)
+		setters := nodeSetters(p)
 		for _, b := range pass.Blocks {
+			if !walk.Blocks[b] {
+				continue
+			}
 			for _, x := range b.Instrs {
-				recv, arg, ok := isSetterCall(x)
-				if !ok || arg != ssa.Value(modeParam) || !walk.Blocks[x.Block()] {
-					continue
-				}
-				// receiver derives from field e.field of TypeAssert(W → *T)
-				f, base, ok2 := fieldOfAsserted(recv, 0)
-				if !ok2 || f != e.field {
-					continue
-				}
-				ex, isEx := base.(*ssa.Extract)
-				if !isEx {
-					continue
-				}
-				ta, isTA := ex.Tuple.(*ssa.TypeAssert)
-				if !isTA || ta.X != ssa.Value(W) {
+				ta, isTA := x.(*ssa.TypeAssert)
+				if !isTA || !ta.CommaOk || ta.X != ssa.Value(W) {
 					continue
 				}
 				if pt, isPtr := ta.AssertedType.(*types.Pointer); !isPtr || !types.Identical(pt.Elem(), e.T) {
 					continue
 				}
-				// guards between the loop body entry and the call: only the assertion's ok, bool fields of the asserted node, loop conditions of complete loops
-				guardsOK := true
-				for _, dc := range dominatingConds(x.Block()) {
-					if !walk.Blocks[dc.at.Block()] || dc.at.Block() == walk.Header {
+				for _, ref := range *ta.Referrers() {
+					ex, isE := ref.(*ssa.Extract)
+					if !isE || ex.Index != 0 {
 						continue
 					}
-					if e2, isE := dc.cond.(*ssa.Extract); isE && e2.Tuple == ssa.Value(ta) {
-						continue
+					if edgesPropagated(p, pass, ex, setterName, setters, evalEdgeGuards(c, e.T), modeParam, W)[e.field] {
+						covered = true
 					}
-					if base2, _, isBool := boolFieldLoad(dc.cond); isBool && base2 == base {
-						continue
-					}
-					// inner loop header condition
-					if bo, isBo := dc.cond.(*ssa.BinOp); isBo && bo.Op == token.LSS {
-						continue
-					}
-					guardsOK = false
-					why = "the update of these nodes is guarded by an extra condition (e.g. the node's position in the chain)"
-				}
-				if guardsOK {
-					covered = true
 				}
 			}
 		}
@@ -1757,4 +1817,9 @@ func storedInLoopOutsideAlloc(al *ssa.Alloc) bool {
 		}
 	}
 	return false
+}
+
+func isEmitHelper(c *engine.Context, fn *ssa.Function) bool {
+	_, ok := emitHelpers(c)[fn]
+	return ok
 }
